@@ -887,12 +887,12 @@ def draw_sketch(n, s):
     return np.stack(parts, axis=-1)
 
 
-def check_rsp(A4, variant, solver, tol, block, seed, max_iter=400):
+def check_rsp(A4, variant, solver, tol, block, seed, max_iter=400, tss=8):
     from .. import runtime as rt
     sv = rt.real().solver
     m, n = A4.shape[:2]
     Aq = rt.q_from4(A4)
-    s = sv.RandomizedSketchProjectPseudoinverse(block_size=block, max_iter=max_iter, tol=tol, test_sketch_size=8, seed=seed, column_solver=solver)
+    s = sv.RandomizedSketchProjectPseudoinverse(block_size=block, max_iter=max_iter, tol=tol, test_sketch_size=tss, seed=seed, column_solver=solver)
     fn = {"column": s.compute_column_variant, "row": s.compute_row_variant, "auto": s.compute}[variant]
     X, info = fn(Aq)
     X4 = rt.q_to4(X)
@@ -906,7 +906,7 @@ def check_rsp(A4, variant, solver, tol, block, seed, max_iter=400):
     col = (variant == "column") or (variant == "auto" and m >= n)
     # the history is the history of the returned iterate: recompute the proxy from the same seeded test sketch
     np.random.seed(seed)
-    T4 = draw_sketch(n if col else m, 8)
+    T4 = draw_sketch(n if col else m, tss)
     E = (T4 - rt.qmm(X4, rt.qmm(A4, T4))) if col else (T4 - rt.qmm(A4, rt.qmm(X4, T4)))
     proxy = rt.fro(E) / rt.fro(T4)
     if hist and not (abs(hist[-1] - proxy) <= 1e-9 * max(1.0, proxy)):
@@ -1072,6 +1072,17 @@ def bounded(rep: Report, tier, seed):
                            inputs={"A": A4, "tol": tol, "block": blk, "seed": sd})
     b.samples.append({"shape": [6, 3], "variant": "column", "solver": "qr", "tol": 1e-6, "block": 2})
     b.done()
+    be = rep.add_bounded(Bounded("rsp_equal_sketch_sizes", "block_size == test_sketch_size in {4, 8} (8 = both defaults) below n: 12x10 / 10x10 column, 9x12 row; tol 1e-3 / 1e-6; seeds",
+                                 "same clauses: the monitoring sketch must not coincide with a projection sketch (a proxy that is zero by construction would flag a wrong inverse)"))
+    for (m, n), variant in (((12, 10), "column"), ((10, 10), "column"), ((9, 12), "row")):
+        A4 = mk_matrix(rng, m, n, 5.0)
+        for tss, tol, sd in itertools.product((4, 8), (1e-3, 1e-6), seeds[:2]):
+            for solver in (("qr", "spd") if variant != "row" else ("qr",)):
+                if quick and solver == "spd" and tol != 1e-3:
+                    continue
+                be.case(f"{P}.bounded.rsp.{variant}.{solver}", (m, n, "eq", tss, tol, sd), lambda A4=A4, variant=variant, solver=solver, tol=tol, tss=tss, sd=sd: check_rsp(A4, variant, solver, tol, tss, sd, max_iter=400 if quick else 1200, tss=tss),
+                        f"RSP {variant}/{solver} {m}x{n} block = test sketch = {tss} tol {tol} seed {sd}", facts={"m": m, "n": n, "block": tss, "test_sketch": tss, "solver": solver}, inputs={"A": A4, "tol": tol, "block": tss, "seed": sd})
+    be.done()
     b2 = rep.add_bounded(Bounded("hybrid", "shapes (3,2) (4,4) (6,3) (8,7 thorough), p in 2..8 (quick: 2,3,4,8), T in {1,3,5,10} (10 = the proxy cadence), r in {1,2,n}, tol, qr/spd, seeds; hyperpower identity on random X",
                                  "same truthfulness / soundness clauses; I - X'A = (I - XA)^p"))
     hshapes = [(3, 2), (4, 4), (6, 3)] if quick else [(1, 1), (3, 2), (4, 4), (6, 3), (8, 7)]
@@ -1135,6 +1146,9 @@ def run(tier, seed):
     ]
     rep.trusted += ["qv engine", "z3 5.1", "library model (np.random.randn/np.stack/as_quat_array produce an arbitrary matrix)"]
     deductive(rep, tier)
+    from ..frame import no_module_state
+    no_module_state(rep, P, [S + "RandomizedSketchProjectPseudoinverse.compute", S + "RandomizedSketchProjectPseudoinverse.compute_column_variant",
+                             S + "RandomizedSketchProjectPseudoinverse.compute_row_variant", S + "HybridRSPNewtonSchulz.compute", S + "CGNEQSolver.compute"])
     bounded(rep, tier, seed)
     return rep
 
